@@ -118,6 +118,9 @@ RANDOM = {
             dict(progs=[P("L", mwt(3), "U"), P("G1", "L", mwt(1), "U"), P("G2", "R", mwt(4), "RU"), P("G3", "L", "set11", "U")], NV=2, conds=CS),
             dict(progs=[P("L", mwt(1), "U"), P("L", mwt(2, dl=1), "U"), P("R", mwt(3), "RU"), P("L", "set11", "U", "L", "set21", "U")], NV=2, conds=CS),
             dict(progs=[P("L", mwt(4), "U"), P("R", mwt(1), "RU"), P("L", cvl(v=1), "U"), P("L", "UW", "L", "set11", "B", "U")], NV=1, conds=CS)],
+    "C11": [dict(progs=[P("L", cvl(v=1), "U"), P("L", wnl(v=1, dl=1), "U"), P("G2", "L", "set11", "U", "B")], NV=1, MaxNow=1),
+            dict(progs=[P("L", wnl(v=1), "U"), P("L", wnl(v=1, dl=1), "U"), P("G1", "L", "set11", "U", "S", "S")], NV=1, MaxNow=1),
+            dict(progs=[P("L", wnl(v=1, dl=2), "U"), P("L", cvl(v=1, dl=1), "U"), P("L", "set11", "S", "U", "B"), P("L", "U")], NV=1, MaxNow=2)],
     "C13": [dict(progs=[P("L", wnl(v=1, dl=1), "U"), P("L", wnl(v=1, dl=2), "U"), P("L", "set11", "U", "B"), P("L", "U", "S")], NV=1),
             dict(progs=[P("L", op("decref"), "U", op("freeiflast"))] * 4, NV=1)],
     "C16": [dict(progs=[P("L", "U", "L", "U"), P("R", "RU", "L", "U"), P("L", cvl(v=1, dl=1), "U"), P("D", "D", "L", "set11", "S", "U"), P("D", "D")], NV=1),
